@@ -99,6 +99,8 @@ package olla
 //@   ensures (res1 == nil) == (res0 != nil)
 //@   ensures res0 != nil ==> fresh(res0) && res0.Method == r.Method && res0.Body == r.Body && res0.Header != nil && ghost(res0).reqURL == purecall("(*net/url.URL).String", "string", targetURL)
 //@   ensures res0 != nil ==> forall k string :: has(res0.Header, k) ==> !sensHeader(k) && !hopHeader(k)
+// ... and every other client header arrives unchanged (names Olla maintains itself excepted)
+//@   ensures res0 != nil ==> forall k string :: has(r.Header, k) && !sensHeader(k) && !hopHeader(k) && !ollaHeader(k) && k != "X-Model" ==> has(res0.Header, k) && res0.Header[k] == r.Header[k]
 
 //@ func (s *Service) proxyToSingleEndpoint
 //@   property C01 C02 C04 C15 C19
@@ -122,6 +124,7 @@ package olla
 //@   ensures lastIsOpen ==> rtCount == old(rtCount) && res != nil && circuitOpen(res) && !ghost(w).started
 //@   at call RoundTrip 1 assert proxyReq != nil && proxyReq.Method == r.Method && proxyReq.Body == r.Body && !ghost(w).started
 //@   at call RoundTrip 1 assert forall k string :: has(proxyReq.Header, k) ==> !sensHeader(k) && !hopHeader(k)
+//@   at call RoundTrip 1 assert forall k string :: has(r.Header, k) && !sensHeader(k) && !hopHeader(k) && !ollaHeader(k) && k != "X-Model" ==> has(proxyReq.Header, k) && proxyReq.Header[k] == r.Header[k]
 
 // ---- C18: live delivery. In streaming mode every chunk written to the client is flushed before the engine goes
 // back to read the next one: `unflushed` (bytes handed to the writer since the last successful flush) is zero at
